@@ -106,6 +106,38 @@ def mutations(case: Dict[str, Any]) -> Iterator[Tuple[str, int, Dict[str, Any], 
             c = copy.deepcopy(case)
             c["nodes"][i]["p"] = n["p"] + "_z"
             yield "processor", i, c, [i]
+        elif not n.get("sweep") and n["p"].startswith("template:"):
+            mt = M.RE_TEMPLATE.match(n["p"])
+            if mt:
+                c = copy.deepcopy(case)  # same output key, different template text
+                c["nodes"][i]["p"] = f'template:"{mt["template"]}_v2":{mt["out"]}'
+                yield "processor_template_text", i, c, [i]
+                c = copy.deepcopy(case)
+                c["nodes"][i]["p"] = f'template:"{mt["template"]}":{mt["out"]}2'
+                yield "processor", i, c, [i]
+        elif not n.get("sweep") and n["p"].startswith("slice:"):
+            ms = M.RE_SLICE.match(n["p"])
+            if ms:
+                alt = {"FloatMultiplyOperation": "FloatMultiplyOperationWithDefault", "FloatMultiplyOperationWithDefault": "FloatMultiplyOperation",
+                       "FloatAddOperation": "FloatSquareOperation", "FloatSquareOperation": "FloatSqrtOperation", "FloatDivideOperation": "FloatSqrtOperation",
+                       "VCtxWriteOp": "FloatSquareOperation", "VInPlaceScaleOp": "FloatSquareOperation", "FloatCollectValueProbe": "FloatBasicProbe",
+                       "FloatBasicProbe": "FloatCollectValueProbe", "VEchoProbe": "FloatBasicProbe"}.get(ms["proc"])
+                if alt:
+                    c = copy.deepcopy(case)
+                    c["nodes"][i]["p"] = f'slice:{alt}:{ms["collection"]}'
+                    yield "processor_slice_wrapped", i, c, [i]
+                c = copy.deepcopy(case)
+                other = "VFloatCollection2" if ms["collection"] == "FloatDataCollection" else "FloatDataCollection"
+                c["nodes"][i]["p"] = f'slice:{ms["proc"]}:{other}'
+                yield "processor_slice_collection", i, c, [i]
+        if not n.get("sweep") and n["p"].startswith("rename:") and "." not in n["p"]:
+            mr = M.RE_RENAME.match(n["p"])
+            if mr:  # dotted vs underscored keys are different keys
+                c = copy.deepcopy(case)
+                c["nodes"][i]["p"] = f'rename:{mr["src"]}:{mr["dst"]}.x'
+                c2 = copy.deepcopy(case)
+                c2["nodes"][i]["p"] = f'rename:{mr["src"]}:{mr["dst"]}_x'
+                yield "processor_dotted_key", i, {"nodes": c["nodes"], "run_space": None, "_base_override": c2["nodes"]}, [i]
         # parameter values at any depth
         for path, v in _leaves(n.get("params") or {}):
             nv = _other(v)
@@ -158,7 +190,7 @@ def mutations(case: Dict[str, Any]) -> Iterator[Tuple[str, int, Dict[str, Any], 
                 if spec["lo"] > 0 and spec["hi"] > 0:
                     yield mv("scale", "log" if spec.get("scale", "linear") == "linear" else "linear", "scale")
             elif spec["kind"] == "values":
-                for j in sorted({0, len(spec["values"]) // 2, len(spec["values"]) - 1}):
+                for j in range(len(spec["values"])):  # every position, interior ones included
                     vals = list(spec["values"])
                     vals[j] = vals[j] + 1.0
                     yield mv("values", vals, "sequence_element")
@@ -192,8 +224,15 @@ def check_case(case: Dict[str, Any], col: Collector, only: Any = None) -> None:
     for op, pos, mutant, affected in mutations({"nodes": case["nodes"], "run_space": None}):
         if only is not None and [op, pos] != list(only):
             continue
+        base_local, base_cfg_local = base, base_cfg
+        if "_base_override" in mutant:  # compare two sibling variants (dotted vs underscored key) with each other
+            sib = {"nodes": mutant.pop("_base_override"), "run_space": None}
+            base_cfg_local = c04.to_mapping(sib)
+            base_local = c04.identity_record(base_cfg_local)
+            if "payload_error" in base_local:
+                continue
         mcfg = c04.to_mapping(mutant)
-        if yamlrw.strict_equal(yamlrw.normalise_expressions(mcfg), yamlrw.normalise_expressions(base_cfg)):
+        if yamlrw.strict_equal(yamlrw.normalise_expressions(mcfg), yamlrw.normalise_expressions(base_cfg_local)):
             col.exclude(1, "mutation_is_identity")
             continue
         got = c04.identity_record(mcfg)
@@ -203,13 +242,13 @@ def check_case(case: Dict[str, Any], col: Collector, only: Any = None) -> None:
             continue
         col.count(rep, ["op:" + op], True, sample={"mutation": [op, pos], "node": case["nodes"][pos], "mutant_node": mutant["nodes"][pos] if pos < len(mutant["nodes"]) else None})
         feats = {"op": op}
-        if got["semantic_id"] == base["semantic_id"]:
+        if got["semantic_id"] == base_local["semantic_id"]:
             col.add("mutation_keeps_semantic_id", feats, rep, got["semantic_id"], "a different semantic ID")
-        if got["config_id"] == base["config_id"]:
+        if got["config_id"] == base_local["config_id"]:
             col.add("mutation_keeps_config_id", feats, rep, got["config_id"], "a different config ID")
         for a in affected:
-            if a < len(base["uuids"]) and a < len(got["uuids"]):
-                if got["uuids"][a] == base["uuids"][a] and got["node_semantic_ids"][a] == base["node_semantic_ids"][a]:
+            if a < len(base_local["uuids"]) and a < len(got["uuids"]):
+                if got["uuids"][a] == base_local["uuids"][a] and got["node_semantic_ids"][a] == base_local["node_semantic_ids"][a]:
                     col.add("mutation_keeps_node_identity", feats, rep, [got["uuids"][a], got["node_semantic_ids"][a]], "UUID or node semantic ID differs")
         if len(set(got["uuids"])) != len(got["uuids"]):
             col.add("duplicate_node_uuid", {}, rep, got["uuids"])
@@ -249,7 +288,7 @@ def shrink_candidates(case):
         yield c
 
 
-OPS = ["processor", "param_value_depth2", "param_value_depth3", "delete_node", "insert_node", "swap_nodes",
+OPS = ["processor", "processor_template_text", "processor_slice_wrapped", "processor_slice_collection", "processor_dotted_key", "param_value_depth2", "param_value_depth3", "delete_node", "insert_node", "swap_nodes",
        "sweep_wrapped_processor", "sweep_expr_constant", "sweep_expr_variable", "sweep_expr_operator", "sweep_var_lo", "sweep_var_hi",
        "sweep_var_steps", "sweep_var_scale", "sweep_var_endpoint", "sweep_var_sequence_element", "sweep_var_from_context_key",
        "sweep_mode", "sweep_broadcast", "sweep_collection"]
